@@ -43,8 +43,10 @@ def states(tier, seed):
     targets = ["proton", "isoscalar"] if tier == "quick" else ["proton", "isoscalar", "iron"]
     # R1/R2
     hs = HEAVY_SCHEMES if tier == "thorough" else ["ZM-VFNS", "FFNS3", "FFNS4", "FFN03", "FONLL-FFNS3", "FONLL-FFN04"]
-    for kind, proc, pto, sc, tg, q2 in itertools.product(SF_KINDS, PROCS, ptos, hs, targets, q2s):
+    for kind, proc, pto, sc, tg, q2 in itertools.product(SF_KINDS, PROCS, [0, 1, 2, 3], hs, targets, q2s):
         if tier == "quick" and pto == 2 and (tg != "proton" or q2 != 30.0):
+            continue
+        if tier == "quick" and pto == 3 and (tg != "proton" or q2 != 30.0 or sc not in ("ZM-VFNS", "FFNS4")):
             continue
         if tier == "thorough" and pto == 3 and (tg == "iron" or q2 in (2.0,)):
             continue
@@ -59,8 +61,10 @@ def states(tier, seed):
         out.append({"rel": "R3", "kind": kind, "process": proc, "pto": pto, "scheme": sc, "heavyness": hv, "target": "proton", "Q2": q2})
     # R4
     ps = ["ZM-VFNS", "FFNS3"] if tier == "quick" else ["ZM-VFNS", "FFNS3", "FFNS4", "FFN03", "FONLL-FFNS4"]
-    for kind, proc, pto, sc, hv, q2 in itertools.product(SF_KINDS, ["EM", "NC"], ptos if tier == "quick" else [0, 1, 2, 3], ps, ["total", "light", "charm"], q2s):
+    for kind, proc, pto, sc, hv, q2 in itertools.product(SF_KINDS, ["EM", "NC"], [0, 1, 2, 3], ps, ["total", "light", "charm"], q2s):
         if tier == "quick" and (pto == 2 and q2 != 30.0):
+            continue
+        if tier == "quick" and pto == 3 and (q2 != 30.0 or sc != "ZM-VFNS" or hv == "charm"):
             continue
         if tier == "thorough" and pto == 3 and q2 not in (30.0, 1e5):
             continue
